@@ -358,14 +358,15 @@ func runC05(c *core.Ctx) {
 		ctxPrm := ssa.Value(fn.Params[1])
 		isFwd := func(x ssa.Instruction) bool {
 			cc := core.CallCommon(x)
-			if cc == nil || !cc.IsInvoke() || cc.Method.Name() != fn.Name() || core.Unwrap(cc.Value) != ctxPrm {
+			// the context parameter itself, or the cell it is spilled into when a closure captures it
+			if cc == nil || !cc.IsInvoke() || cc.Method.Name() != fn.Name() || core.Unwrap(core.ForwardLoad(core.Unwrap(cc.Value))) != ctxPrm {
 				return false
 			}
 			if _, isCall := x.(*ssa.Call); !isCall {
 				return false
 			}
 			if fn.Name() == "HandleInactive" {
-				return len(cc.Args) == 1 && len(fn.Params) == 3 && core.Unwrap(cc.Args[0]) == ssa.Value(fn.Params[2])
+				return len(cc.Args) == 1 && len(fn.Params) == 3 && core.Unwrap(core.ForwardLoad(core.Unwrap(cc.Args[0]))) == ssa.Value(fn.Params[2])
 			}
 			return true
 		}
